@@ -102,9 +102,11 @@ def run_case(c, AM, uid):
         ns["setup"] = setup
         ns["execute"] = lambda self: None
         inherited = [a for a in spec["attrs"] if a["preset"] == "inherited"]
+        basepreset = [a for a in spec["attrs"] if a["preset"] == "baseclass"]
         bases = (object,)
-        if inherited:
-            bases = (type("Base_%s_%d" % (cn, uid), (object,), {"__annotations__": {}}),)
+        if inherited or basepreset:
+            bases = (type("Base_%s_%d" % (cn, uid), (object,),
+                          dict({"__annotations__": {}}, **{a["n"]: PRESET for a in basepreset})),)
         K[cn] = type("K_%s_%d" % (cn, uid), bases, ns)
         requested[cn] = [a["n"] for a in spec["attrs"] if a["n"] != "_p" and a["preset"] in ("no", "inherited")]
     ANN["K1"] = K.get("c1", type("Never1", (), {}))
@@ -125,6 +127,11 @@ def run_case(c, AM, uid):
         rns.update(vals)
         rns["createObjects"] = lambda self: None
     else:
+        if c.get("shadow"):
+            # class-level attributes of the same names holding other objects of the same kinds
+            rns.update({n: make_value(k) if k not in ("zero", "empty", "none") else {"zero": 7, "empty": "zz", "none": A()}[k]
+                        for n, k in c["robot"].items() if k != "missing"})
+
         def createObjects(self):
             for n, v in vals.items():
                 setattr(self, n, v)
